@@ -25,6 +25,8 @@ type NextIterator struct {
 }
 
 func (n *NextIterator) Rand(length int) int {
+	n.mx.Lock()
+	defer n.mx.Unlock()
 	return n.rnd.Intn(length)
 }
 
